@@ -597,4 +597,71 @@ theorem nodup_keys_assignLoop (nodes : List Nat) (rf start : Nat) :
     rw [assignLoop]
     exact nodup_keys_assignLoop nodes rf start k _ _ _ (nodup_keys_foldl_addReplicaTo cur _ a h)
 
+/-! ### the event queue between `EmitEvent` and `processEvent` loses nothing -/
+
+theorem run_append (st : St) (es fs : List Event) : run st (es ++ fs) = run (run st es) fs := by
+  simp [run, List.foldl_append]
+
+/-- the state the queue is heading for is the state after ALL emitted events -/
+def QInv (q : QSt) : Prop := run q.st q.queue = run St.init q.emitted
+
+theorem qinv_init : QInv QSt.init := rfl
+
+theorem qinv_step (cap : Nat) (q : QSt) (a : QAction) (h : QInv q) : QInv ((qstep cap q a).getD q) := by
+  cases a with
+  | emit e =>
+    unfold qstep
+    by_cases hc : q.queue.length < cap
+    · simp only [hc, ite_true, Option.getD_some]
+      unfold QInv at h ⊢
+      simp only [run_append, h]
+    · simp only [hc, ite_false, Option.getD_none]; exact h
+  | consume =>
+    unfold qstep
+    cases hq : q.queue with
+    | nil => simp only [Option.getD_none]; exact h
+    | cons e t =>
+      simp only [Option.getD_some]
+      unfold QInv at h ⊢
+      rw [hq] at h
+      simpa [run, List.foldl_cons] using h
+
+theorem qinv_run (cap : Nat) : ∀ (as : List QAction) (q : QSt), QInv q → QInv (qrun cap q as)
+  | [], _, h => h
+  | a :: t, q, h => by
+    unfold qrun
+    rw [List.foldl_cons]
+    exact qinv_run cap t _ (qinv_step cap q a h)
+
+/-- emitted events that are all well-formed -/
+theorem emitted_step (cap : Nat) (q : QSt) (a : QAction) (P : Event → Prop)
+    (ha : ∀ e, a = .emit e → P e) (h : ∀ e ∈ q.emitted, P e) :
+    ∀ e ∈ ((qstep cap q a).getD q).emitted, P e := by
+  cases a with
+  | emit e0 =>
+    unfold qstep
+    by_cases hc : q.queue.length < cap
+    · simp only [hc, ite_true, Option.getD_some]
+      intro e he
+      rcases List.mem_append.mp he with h1 | h1
+      · exact h e h1
+      · have : e = e0 := by simpa using h1
+        exact this ▸ ha e0 rfl
+    · simp only [hc, ite_false, Option.getD_none]; exact h
+  | consume =>
+    unfold qstep
+    cases hq : q.queue with
+    | nil => simp only [Option.getD_none]; exact h
+    | cons e t => simp only [Option.getD_some]; exact h
+
+theorem emitted_run (cap : Nat) (P : Event → Prop) : ∀ (as : List QAction) (q : QSt),
+    (∀ e, QAction.emit e ∈ as → P e) → (∀ e ∈ q.emitted, P e) →
+    ∀ e ∈ (qrun cap q as).emitted, P e
+  | [], _, _, h => h
+  | a :: t, q, ha, h => by
+    unfold qrun
+    rw [List.foldl_cons]
+    exact emitted_run cap P t _ (fun e he => ha e (List.mem_cons_of_mem _ he))
+      (emitted_step cap q a P (fun e he => ha e (he ▸ List.mem_cons_self)) h)
+
 end LinVerif.Lemmas.C18
